@@ -13,7 +13,7 @@ import (
 	"verif/harness/stats"
 )
 
-const ruleC10 = "rapid-generated histories of 1..8 attempts (transport failure | response rejected by the validator | stream of id/data/event/comment lines with IDs normal, empty, containing NUL, repeated; ended cleanly, by a read error, or in mid-event) with unlimited retries and a request body of every kind (none, NoBody, with GetBody, without GetBody, GetBody failing at its j-th call); the scripted transport records the Last-Event-ID header and reads the request body of every attempt. Oracle: the header of attempt k+1 equals the LastEventID of the last event the reference interpreter DISPATCHES over attempts 1..k (threading the ID through; absent iff empty); every retry reads the full original body from a reader obtained by a fresh GetBody call (calls == attempts-1); a body that cannot be re-obtained ends Connect with ErrNoGetBody / GetBody's error after exactly the attempts made so far. Non-trivial: >= 3 attempts, a non-empty ID was dispatched, and a later attempt failed or was cut in mid-event. Distinct: FNV-64 of the JSON of the case."
+const ruleC10 = "rapid-generated histories of 1..8 attempts (transport failure | response rejected by the validator | stream of id/data/event/comment lines with IDs normal, empty, containing NUL, repeated; ended cleanly, by a read error, or in mid-event) with unlimited retries and a request body of every kind (none, NoBody, with GetBody, without GetBody, GetBody failing at its j-th call); the scripted transport records the Last-Event-ID header, reads the request body of every attempt (or, for half of the transport failures, fails before reading it) and closes it; a closed body cannot be read again. Oracle: the header of attempt k+1 equals the LastEventID of the last event the reference interpreter DISPATCHES over attempts 1..k (threading the ID through; absent iff empty); every retry reads the full original body from a reader obtained by a fresh GetBody call (calls == attempts-1); a body that cannot be re-obtained ends Connect with ErrNoGetBody / GetBody's error after exactly the attempts made so far. Non-trivial: >= 3 attempts, a non-empty ID was dispatched, and a later attempt failed or was cut in mid-event. Distinct: FNV-64 of the JSON of the case."
 
 var c10IDs = []string{"1", "2", "42", "abc", "", "", "a\x00b", "\x00", "x y", "é", "1"}
 
@@ -56,6 +56,7 @@ func genC10(t *rapid.T) Script {
 		switch k := stats.Pct(t, "akind"); {
 		case k < 22:
 			a.Kind = "neterr"
+			a.NoRead = rapid.Bool().Draw(t, "noread")
 		case k < 26:
 			a.Kind = "reject"
 		default:
@@ -170,6 +171,10 @@ walk:
 		// -- the body
 		switch sc.Body {
 		case "getbody", "getbodyfail", "nogetbody":
+			if obs.unread {
+				v.Class("attempt-failed-before-reading-the-body")
+				break
+			}
 			if !obs.hasBody || obs.body != requestBody || obs.bodyErr != nil {
 				return v.Failf("", "attempt %d: the transport read body %q (err %v), want the full original body %q\n%s", k, obs.body, obs.bodyErr, requestBody, desc())
 			}
